@@ -386,6 +386,11 @@ func (n *vfdNet) backlog() int {
 // drain waits until the traffic of the finished epoch is gone: nothing in flight on the bus, no pending gossip
 // retry, nothing queued in any sender. Pacing only; returns false when the bound expired.
 func (n *vfdNet) drain(bound time.Duration) bool {
+	if n.nStuck.Load() > 0 && bound > 1500*time.Millisecond {
+		// a handler of the real code is blocked for good (wedged echo-broadcast board): the queues behind it never
+		// empty, waiting longer only costs time
+		bound = 1500 * time.Millisecond
+	}
 	deadline := time.Now().Add(bound)
 	for time.Now().Before(deadline) {
 		if n.quiesce(time.Until(deadline)) && n.backlog() == 0 && n.quiesce(50*time.Millisecond) && n.backlog() == 0 {
